@@ -32,12 +32,25 @@ def tasks(tier, seed):
 
 
 def events(src, n, rng, words=None):
-    from gambatools.tm_algorithms import tm_simulate_word, tm_accepts_word
     T = tmsrc.build(src)
-    A = ab.tm(T)
+    twin = None
+    if src.get("twin"):
+        # a decider and its complement built from the SAME transition table object (accept and reject exchanged):
+        # the twin is described as it was defined, before anything has run on either machine
+        from gambatools.tm import TM
+        twin = TM(T.Q, T.Sigma, T.Gamma, T.delta, T.q0, T.q_reject, T.q_accept, T.blank)
+        A2 = ab.tm(twin)
+    words = list(words) if words is not None else None
     if words is None:
         words = list(U.words_upto(sorted(T.Sigma), n))
         words = words if len(words) <= 4 else rng.sample(words, 4)
+    yield from _events(T, ab.tm(T), src, n, rng, words)
+    if twin is not None:
+        yield from _events(twin, A2, src, n, rng, words)
+
+
+def _events(T, A, src, n, rng, words):
+    from gambatools.tm_algorithms import tm_simulate_word, tm_accepts_word
     words = list(words)
     if src.get("long") and T.Sigma:
         words.append("".join(rng.choice(sorted(T.Sigma)) for _ in range(src["long"])))      # a long tape
@@ -68,7 +81,7 @@ def drive(task):
     if task["kind"] == "codes":
         for code in range(task["lo"], task["hi"], task["stride"]):
             yield from events({"kind": "tm_code", "nwork": task["nwork"], "gamma": task["gamma"], "code": code,
-                               "sigma": task.get("sigma", "a")}, task["n"], rng)
+                               "sigma": task.get("sigma", "a"), "twin": 1 if code % 2 else 0}, task["n"], rng)
         if task["lo"] == 0 and task["nwork"] == 1:
             for src, ws in tmsrc.SPECIAL:
                 yield from events(src, 0, rng, words=ws)
@@ -80,6 +93,8 @@ def drive(task):
             src = {"kind": "tm_rnd01" if i % 4 == 3 else "tm_rnd", "seed": task["seed"] * 100000 + i}
             if i % 5 == 0:
                 src["long"] = 10 + i % 4
+            if i % 3 == 1:
+                src["twin"] = 1
             yield from events(src, task["n"], rng)
 
 
@@ -96,7 +111,8 @@ RULE = ("all 169 TMs with one working state over tape alphabet {a,_} (+ the same
         "97th (7th) of the 83521 two-working-state TMs, random TMs with 1-3 working states, 1-2 input symbols, extra "
         "tape symbols, three blank symbols, partial transition functions (every fourth over {0,1} with states named q, q1, "
         "q11, q10, q0; every fifth also on a word of length 10-13), two hand-written machines whose runs pass through "
-        "look-alike configurations; per (TM, word): the verdict under budgets "
+        "look-alike configurations; every second / third machine is followed by its complement built from the SAME "
+        "transition table object (accept and reject exchanged) on the same words; per (TM, word): the verdict under budgets "
         "0,1,2,3,4,6,8,1000 and the recorded configuration sequence for one budget; non-trivial = the run takes >= 2 "
         "steps; distinct = distinct (TM, word, budget)")
 
